@@ -588,6 +588,9 @@ fn run_e2e(c: &[u64]) -> Vec<u64> {
         };
         let VerifYamuxPair { dialer, listener, .. } = pair;
         let mut dialer = dialer;
+        // no run delivers more frames than messages were offered: a reader that has got more stops (code 6) and
+        // drops its end, so that a sender which repeats bytes forever fails instead of keeping the run alive
+        let max_frames = ops.iter().filter(|o| o.0 == 1 || o.0 == 3).count();
         let reader = tokio::spawn(async move {
             let mut frames: Vec<Vec<u8>> = Vec::new();
             // yamux announces a stream with its first data frame; a dialer that never writes is never seen
@@ -597,7 +600,12 @@ fn run_e2e(c: &[u64]) -> Vec<u64> {
             };
             loop {
                 match tokio::time::timeout(limit, sub.next()).await {
-                    Ok(Some(Ok(f))) => frames.push(f.to_vec()),
+                    Ok(Some(Ok(f))) => {
+                        frames.push(f.to_vec());
+                        if frames.len() > max_frames {
+                            return (frames, 6);
+                        }
+                    }
                     Ok(None) => return (frames, 1),
                     Ok(Some(Err(SubstreamError::ReadFailure(_)))) => return (frames, 3),
                     Ok(Some(Err(_))) => return (frames, 4),
@@ -605,7 +613,13 @@ fn run_e2e(c: &[u64]) -> Vec<u64> {
                 }
             }
         });
+        let mut timed_out = false;
         for (t, b, len) in ops {
+            // an operation that did not end within the limit ends the writer's part: the rest is reported as 7
+            if timed_out {
+                out.push(7);
+                continue;
+            }
             let code = match t {
                 1 => match tokio::time::timeout(limit, dialer.feed(mk_msg(b, len))).await {
                     Ok(Ok(())) => 1,
@@ -628,6 +642,7 @@ fn run_e2e(c: &[u64]) -> Vec<u64> {
                     Err(_) => 7,
                 },
             };
+            timed_out = code == 7;
             out.push(code);
         }
         let (frames, fin) = reader.await.unwrap_or((Vec::new(), PANIC));
@@ -721,7 +736,9 @@ pub(crate) fn push_script(c: &mut Vec<u64>, evs: &[Ev]) {
 /// A script that moves about `total` bytes in chunks drawn from a size family, with stalls.
 pub(crate) fn gen_script(rng: &mut Rng, total: u64, calls_hint: u64, read: bool, faulty: bool) -> Vec<Ev> {
     let mut evs = Vec::new();
-    let style = rng.below(5);
+    // styles 5-7 (writer scripts only): the carrier takes a part, then stalls, then goes on — a stall follows
+    // most accepts, so that it lands inside frames (length prefix included) rather than between them
+    let style = if read { rng.below(5) } else { rng.below(8) };
     let big = total > 6000;
     let mut moved = 0u64;
     // enough events for the data, plus slack for flush calls / zero-length writes
@@ -739,6 +756,19 @@ pub(crate) fn gen_script(rng: &mut Rng, total: u64, calls_hint: u64, read: bool,
                 // every error kind the carrier may report, PermissionDenied (what a refusal looks like) more often
                 Ev::Err(if rng.chance(25) { 1 } else { rng.below(ERROR_KINDS.len() as u64) as usize })
             });
+            continue;
+        }
+        if style >= 5 {
+            let n = match style {
+                5 => rng.range(1, 3),
+                6 => rng.pick(&[1u64, 1, 2, 5, 60, 126, 127, 129, 1000, 16384]),
+                _ => rng.range(1, total / 3 + 2),
+            };
+            moved += n;
+            evs.push(Ev::Chunk(n as usize));
+            if rng.chance(if big || style == 5 { 25 } else { 60 }) {
+                evs.push(Ev::Pending);
+            }
             continue;
         }
         let n = match style {
@@ -977,6 +1007,97 @@ fn gen_case(rng: &mut Rng, thorough: bool) -> Vec<u64> {
     c
 }
 
+/// Systematic block, run on every tier right after the corpus: the carrier takes a strict non-empty part of a
+/// queued frame, answers Pending, and later takes the rest. Every split point of every frame (length prefix
+/// and payload) of small messages is visited, for both codecs, on each sending path:
+///   path 0: start_send x2, poll_flush until complete      path 1: send_framed x2
+///   path 2: start_send then send_framed (the queued frame goes out inside send_framed's flush)
+///   path 3: start_send, Sink::poll_close, poll_flush ...   (a close in between must not disturb the queue)
+/// The carrier script is `s`-byte accepts with one Pending after the j-th answer, for every j: whatever the number of
+/// carrier calls an operation makes, the Pending visits every position. Then the backpressure flush of
+/// poll_ready: a message above BACKPRESSURE_BOUNDARY cut at chosen points.
+pub(crate) fn sys_partial_cases() -> Vec<Vec<u64>> {
+    let mut out = Vec::new();
+    let big = 1u64 << 20;
+    let tail = |c: &mut Vec<u64>, nmsgs: u64| {
+        c.push(0); // no raw bytes
+        let nr = nmsgs * 3 + 6;
+        c.push(nr);
+        for _ in 0..nr {
+            c.extend([1, big]);
+        }
+        c.push(nr + 2);
+    };
+    // (codec tag, arg, message length, accept sizes)
+    let cfgs: [(u64, u64, u64, &[u64]); 5] = [
+        (0, 5, 5, &[1, 2]),
+        (1, 0, 3, &[1, 2]),
+        (1, 0, 130, &[1, 7, 50]),   // two-byte length prefix
+        (2, 300, 200, &[1, 3, 64]), // two-byte length prefix, bounded codec
+        (2, 20, 1, &[1]),
+    ];
+    for (tag, arg, len, steps) in cfgs {
+        let wire = if tag == 0 { len } else { len + varint_len(len) };
+        for path in 0..4u64 {
+            let ops: Vec<u64> = match path {
+                0 => vec![0, 1, 11, len, 0, 1, 13, len, 2, 2, 2, 2],
+                1 => vec![3, 11, len, 3, 13, len],
+                2 => vec![0, 1, 11, len, 3, 13, len, 2],
+                _ => vec![0, 1, 11, len, 4, 2, 2, 2],
+            };
+            let nops = match path { 0 => 8, 1 => 2, 2 => 4, _ => 6 };
+            let nm = if path == 3 { 1 } else { 2 };
+            for &s in steps {
+                let nchunks = (wire * nm).div_ceil(s) + 2 * nm + 8;
+                for j in 0..nchunks.min(if s == 1 { 40 } else { 24 }) {
+                    let mut c = vec![tag, arg, nops];
+                    c.extend(&ops);
+                    c.push(nchunks + 1);
+                    for i in 0..nchunks {
+                        if i == j {
+                            c.push(0);
+                        }
+                        c.extend([1, s]);
+                    }
+                    tail(&mut c, nm);
+                    out.push(c);
+                }
+            }
+        }
+    }
+    // the backpressure flush of poll_ready (and the flush after it) cut inside a frame of 66000 bytes
+    for (tag, arg) in [(0u64, 66000u64), (1, 0)] {
+        let pre: &[u64] = if tag == 0 { &[] } else { &[1, 2] };
+        let cuts: &[u64] = if tag == 0 { &[1, 100, 464, 65999] } else { &[1, 463, 65999] };
+        let mut scripts: Vec<Vec<u64>> = Vec::new();
+        for &k in pre {
+            scripts.push(vec![1, k, 0]); // inside the three-byte length prefix
+        }
+        for &k in cuts {
+            let mut v = if tag == 0 { vec![] } else { vec![1, 3] };
+            v.extend([1, k, 0]);
+            scripts.push(v);
+            // twice in the same frame
+            let mut v = if tag == 0 { vec![] } else { vec![1, 3] };
+            v.extend([1, k.min(400), 0, 1, 30, 0]);
+            scripts.push(v);
+        }
+        for sc in scripts {
+            // poll_ready, start_send, poll_ready (flushes: stalls inside), poll_ready, poll_flush x3
+            let mut c = vec![tag, arg, 7, 0, 1, 21, 66000, 0, 0, 2, 2, 2];
+            let nev = sc.iter().filter(|x| **x == 0).count() as u64 + (sc.len() as u64 - sc.iter().filter(|x| **x == 0).count() as u64) / 2;
+            c.push(nev + 8);
+            c.extend(&sc);
+            for _ in 0..8 {
+                c.extend([1, big]);
+            }
+            tail(&mut c, 1);
+            out.push(c);
+        }
+    }
+    out
+}
+
 /// End-to-end kinds (10-22 yamux, 60-62 QUIC): the last four numbers of the case are `z1 z2 0 0`, the environment's
 /// share of the outcome, written here from the trace: z1 = frames the reader got, z2 = the accepting side saw the
 /// stream. The model takes them as given and the oracle judges whether they are an outcome the code allows.
@@ -1018,6 +1139,16 @@ pub fn main(args: &Args) {
     if args.str("replay").is_some() {
         return;
     }
+    #[cfg(feature = "extra")]
+    let systematic = args.str("extra").is_none();
+    #[cfg(not(feature = "extra"))]
+    let systematic = true;
+    if systematic {
+        for c in sys_partial_cases().into_iter().chain(crate::c04y::sys_partial_cases()) {
+            let t = catch_unwind(AssertUnwindSafe(|| run_case(&c))).unwrap_or(vec![PANIC_MARK]);
+            out.emit(&c, &t);
+        }
+    }
     for i in 0..ncases {
         let mut r = rng.fork();
         #[cfg(feature = "extra")]
@@ -1036,6 +1167,9 @@ pub fn main(args: &Args) {
             16 | 36 | 9 | 29 => crate::c04y::gen_reader(&mut r, thorough),
             _ => gen_case(&mut r, thorough),
         };
+        if std::env::var_os("VERIF_C04_ECHO").is_some() {
+            eprintln!("about to run: {}", c.iter().map(|x| x.to_string()).collect::<Vec<_>>().join(" "));
+        }
         let t = catch_unwind(AssertUnwindSafe(|| run_case(&c))).unwrap_or(vec![PANIC_MARK]);
         fill_choice(&mut c, &t);
         out.emit(&c, &t);
